@@ -199,7 +199,7 @@ def sec_formulas(rep):
     from yadism.esf import tmc, conv
 
     sy = H.Sy()
-    pre = [sy.x > 0, sy.x < 1, sy.Q2 > 0, sy.M2target > 0]
+    pre = [sy.x > 0, sy.x <= 1, sy.Q2 > 0, sy.M2target > 0]  # x = 1 included: xi(1) < 1, the formulas do not vanish there
     for kind in KINDS:
         cls = tmc.ESFTMCmap[kind]
         rep.under_contract(cls._get_result_APFEL, cls._get_result_approx, cls._get_result_exact, cls.__init__)
